@@ -445,7 +445,10 @@ def replay(path):
     print('verifier   :', p.get('verifier_message'))
     did = p.get('decl_id')
     d = None
-    for c in catalogue.all_decls():
+    cands = catalogue.all_decls()
+    if p['property'] == 'C16':
+        cands = cands + c16_decls('thorough')
+    for c in cands:
         if c.id == did:
             d = c
     if d is None:
@@ -455,6 +458,8 @@ def replay(path):
     if wit is None:
         print('witness program did not build:\n', log)
         return 2
+    if p['property'] in PROP_ENTRIES:
+        wit = [w for w in wit if w.get('entry') in PROP_ENTRIES[p['property']]]
     for w in wit[:5]:
         print('REAL CODE DISAGREES: entry=%(entry)s input=%(input)s bounds=%(bounds)s real=%(real)s expected=%(expected)s' % w)
     if not wit:
